@@ -112,4 +112,45 @@ def exchangeAll : List Step → List Ev
 
 end HttpR
 
+/-! ## `_ClientLogSink` (rpc/_wire.py): buffer until a writer is available, then write through
+
+The sink is the `emit_client_log` of unary calls, of stream methods before / after their header, and of `on_cancel`.
+`flush_contents(writer, schema)` is called with the RESULT schema of a unary method (the empty schema for `-> None`) or the
+OUTPUT schema of a stream (possibly empty).  Whether `__call__` then writes through is decided by the test the extractor
+reads off the source (`sinkTestsIsNotNone`): with truthiness tests an empty `pa.Schema` counts as "no writer". -/
+
+structure Sink where
+  buffer : List Log
+  writer : Option Bool            -- `some schemaIsEmpty` after `flush_contents`, `none` before it / after `reset`
+deriving Repr, DecidableEq
+
+inductive SinkOp where
+  | call (l : Log)                -- `sink(msg)`
+  | flush (schemaEmpty : Bool)    -- `sink.flush_contents(writer, schema)`
+  | reset                         -- `sink.reset()`
+deriving Repr, DecidableEq
+
+/-- one operation: new state, and the messages it wrote to the current stream -/
+def sinkStep (s : Sink) : SinkOp → Sink × List Log
+  | .call l =>
+    match s.writer with
+    | some schemaEmpty =>
+      if VgiVerif.Gen.LogDispatch.sinkTestsIsNotNone || !schemaEmpty then (s, [l])
+      else ({ s with buffer := s.buffer ++ [l] }, [])
+    | none => ({ s with buffer := s.buffer ++ [l] }, [])
+  | .flush e => (⟨[], some e⟩, s.buffer)
+  | .reset => ({ s with writer := none }, [])
+
+def sinkRun : Sink → List SinkOp → Sink × List Log
+  | s, [] => (s, [])
+  | s, op :: r =>
+    let (s1, w1) := sinkStep s op
+    let (s2, w2) := sinkRun s1 r
+    (s2, w1 ++ w2)
+
+def sinkCalled : List SinkOp → List Log
+  | [] => []
+  | .call l :: r => l :: sinkCalled r
+  | _ :: r => sinkCalled r
+
 end VgiVerif.C08
